@@ -406,8 +406,11 @@ class ContainerEngine:
                 if violation:
                     break
             states.add(core.digest([
-                len(w.ref[k]), sorted(e["state"] for e in w.ref[k].values())
-            ]))
+                len(w.ref[k]), getattr(self, "last_kind", None),
+                bool(op.get("fault")), bool(op.get("retry")),
+                sorted(w.config["curves"][e["ci"]].get("pipe", 0)
+                       for e in w.ref[k].values()),
+                len(w.containers)]))
             log.append({"i": i, "op": "save",
                         "dump": dump_signature(dump(w.containers[k]))})
         probes["fault positions enumerated"] = self.enum_positions
@@ -469,6 +472,7 @@ class ContainerEngine:
             else:
                 kind = "similar"
         feats["kind"] = kind
+        self.last_kind = kind
         out = self.do_save(path, orig, user, fault)
         if out.get("fired"):
             f = out["fired"]
